@@ -183,9 +183,20 @@ def condsKnown (v : View) : Sels → Bool
   | .cons tag arg sub rest =>
     (if tag == "on" then (v.lookupF arg).isSome else true) && condsKnown v sub && condsKnown v rest
 
-/-- Execution's walk on an object of type `objT`. `world parent field` is the runtime object type the
-    application returns for an abstract (or object) result, `none` for null / leaf results. -/
-def exec (v : View) (world : String → String → Option String) : String → Sels → List Event
+/-- Type resolution in `completeValue` (executor.go, after fix 03): the candidates — for an interface
+    the implementations whose required features are enabled, in registration order — are tried in
+    order, and the first whose `IsTypeOf` accepts the value is the object type. `claimed` is the set of
+    object types whose `IsTypeOf` accepts the value (IsTypeOf functions may overlap). The feature test
+    comes BEFORE the `IsTypeOf` test: a disabled implementation that also claims the value does not
+    stop the search. -/
+def View.resolveType (v : View) (abstract : String) (claimed : List String) : Option String :=
+  (v.resolveCandidates abstract).find? (fun c => claimed.contains c)
+
+/-- Execution's walk on an object of type `objT`. `world parent field` describes what the application
+    returns for a composite result: `none` for null / leaf results, `some claimed` for a value that the
+    `IsTypeOf` functions of exactly the object types in `claimed` accept (any list: one type, several
+    overlapping ones, gated ones, none). -/
+def exec (v : View) (world : String → String → Option (List String)) : String → Sels → List Event
   | _, .nil => []
   | objT, .cons tag arg sub rest =>
     (if tag == "field" then
@@ -195,9 +206,10 @@ def exec (v : View) (world : String → String → Option String) : String → S
          .resolve objT arg ::
            (match world objT arg with
             | none => []
-            | some rt =>
-              if (v.resolveCandidates s.ty.base).contains rt then exec v world rt sub
-              else [.unresolvable s.ty.base rt])
+            | some claimed =>
+              match v.resolveType s.ty.base claimed with
+              | some rt => exec v world rt sub
+              | none => [.unresolvable s.ty.base (",".intercalate claimed)])
      else if tag == "on" then
        match v.lookupRaw arg with                      -- executor namedType: raw
        | none => []
